@@ -290,6 +290,8 @@ def r4_rewriting(ctx):
 
 
 def run(ctx):
+    from . import effects
+    effects.check_property(ctx, "C17")    # R17.E: no operation on shared protocol state outside the reviewed table
     from . import C07, C10, C16
     C10.r6_front_ends(ctx)
     r2_early_bytes(ctx)
